@@ -179,8 +179,8 @@ def length_rules(ctx, F):
     # 2. each setter / constructor sets Length from the content it installs, on every path
     for fn, src in (("Stream::new", "content"), ("Stream::set_content", "content"), ("Stream::set_plain_content", "content")):
         b = F.fn(fn)
-        sets = [c for c in b.calls if c.local and c.name.endswith("Dictionary::set") and lib._const_bytes_through(b, c.args[1]) in (b"Length",)
-                or (c.local and c.name.endswith("Dictionary::set") and "Length" in b.oname(c.args[1], 4))]
+        sets = [c for c in b.calls if c.local and c.cname.endswith("Dictionary::set") and lib._const_bytes_through(b, c.args[1]) in (b"Length",)
+                or (c.local and c.cname.endswith("Dictionary::set") and "Length" in b.oname(c.args[1], 4))]
         ok = False
         how = "no Dictionary::set(\"Length\", ..)"
         for c in sets:
@@ -192,7 +192,7 @@ def length_rules(ctx, F):
                 ok = True
         ctx.ob("R-ORDER", "length-set|%s" % fn, ok, how, b.where(), what="%s does not set Length to the length of the content it installs on every path (%s)" % (fn, how))
     wx = F.fn("Document::write_cross_reference_stream")
-    ls = [c for c in wx.calls if c.local and c.name.endswith("Dictionary::set") and "Length" in wx.oname(c.args[1], 4)]
+    ls = [c for c in wx.calls if c.local and c.cname.endswith("Dictionary::set") and "Length" in wx.oname(c.args[1], 4)]
     ctx.ob("R-ORDER", "length-set|write_cross_reference_stream", len(ls) == 1 and "stream_length" in wx.oname(ls[0].args[2], 4), "trailer Length = stream_length", wx.where(),
            what="the cross-reference stream's Length is not set from the serialised table's length")
 
@@ -203,8 +203,8 @@ def run(ctx):
     R = "R-WHO"
     # 3. compress
     cp = F.fn("Stream::compress")
-    sc = [c for c in cp.calls if c.local and c.name.endswith("Stream::set_content")]
-    sf = [c for c in cp.calls if c.local and c.name.endswith("Dictionary::set") and "Filter" in cp.oname(c.args[1], 4)]
+    sc = [c for c in cp.calls if c.local and c.cname.endswith("Stream::set_content")]
+    sf = [c for c in cp.calls if c.local and c.cname.endswith("Dictionary::set") and "Filter" in cp.oname(c.args[1], 4)]
     ok = len(sc) == 1 and len(sf) == 1
     how = ""
     if ok:
@@ -236,26 +236,26 @@ def run(ctx):
     consulted = set()
     for body in [dc, F.fn("Stream::filters")]:
         for c in body.calls:
-            if c.local and c.name.endswith("Dictionary::get"):
+            if c.local and c.cname.endswith("Dictionary::get"):
                 k = lib._const_bytes_through(body, c.args[1])
                 if k:
                     consulted.add(k)
     ctx.floor("R-SIB", "dictionary keys consulted by decompressed_content", len(consulted), 2)
     for fn in ("Stream::decompress", "Stream::set_plain_content"):
         b = F.fn(fn)
-        removed = set(lib._const_bytes_through(b, c.args[1]) for c in b.calls if c.local and c.name.endswith("Dictionary::remove"))
+        removed = set(lib._const_bytes_through(b, c.args[1]) for c in b.calls if c.local and c.cname.endswith("Dictionary::remove"))
         ctx.ob("R-SIB", "decoded-keys-removed|%s" % fn, consulted <= removed, "%s removes %s" % (fn, sorted(x.decode() for x in removed if x)), b.where(),
                what="%s leaves %s in the dictionary although the content is now plain: a later compress() or save produces a stream whose parameters no longer describe its data"
                     % (fn, sorted(x.decode() for x in consulted - removed)))
     d = F.fn("Stream::decompress")
-    dcall = [c for c in d.calls if c.local and c.name.endswith("Stream::decompressed_content")]
-    scall = [c for c in d.calls if c.local and c.name.endswith("Stream::set_content")]
+    dcall = [c for c in d.calls if c.local and c.cname.endswith("Stream::decompressed_content")]
+    scall = [c for c in d.calls if c.local and c.cname.endswith("Stream::set_content")]
     ctx.ob("R-ORDER", "decompress-through-setter", len(dcall) == 1 and len(scall) == 1 and d.dominates(dcall[0].bb, scall[0].bb) and d.oname(scall[0].args[1], 2) == "data",
            "decompress installs decompressed_content()? through set_content", d.where(), what="Stream::decompress no longer installs the decoded bytes through set_content")
     # 5. dispatch table
     table = {}
     for c in dc.calls:
-        if c.local and re.search(r"Stream::(decompress_zlib|decompress_lzw|decode_ascii85)$", c.name):
+        if c.local and re.search(r"Stream::(decompress_zlib|decompress_lzw|decode_ascii85)$", c.cname):
             m = lib.slice_matches(dc, c.bb)
             for k, v in m.items():
                 table[v] = c.name.rsplit("::", 1)[-1]
@@ -272,7 +272,7 @@ def run(ctx):
             st = bv._const_struct(c.args[0])
     ctx.ob("R-TABLE", "predictor-range", st is not None and st["fields"].get("start") == "10" and st["fields"].get("end") == "15", "PNG predictors are 10..=15", pr.where(),
            what="decompress_predictor does not treat exactly the predictor values 10..=15 as PNG predictors")
-    keys = set(lib._const_bytes_through(b2, c.args[1]) for b2 in F.with_closures(pr) for c in b2.calls if c.local and c.name.endswith("Dictionary::get"))
+    keys = set(lib._const_bytes_through(b2, c.args[1]) for b2 in F.with_closures(pr) for c in b2.calls if c.local and c.cname.endswith("Dictionary::get"))
     ctx.ob("R-TABLE", "predictor-params", {b"Predictor", b"Columns", b"Colors", b"BitsPerComponent"} <= keys, "Predictor, Columns, Colors, BitsPerComponent are read", pr.where(),
            what="decompress_predictor no longer reads all of Predictor, Columns, Colors, BitsPerComponent")
     png_rules(ctx, F)
@@ -282,7 +282,7 @@ def run(ctx):
     okl = len(dec) == 2 and all(lz.oname(c.args[1], 3) in ("8", "Sub(9,1)") for c in dec) and all("Msb" in lz.oname(c.args[0], 3) for c in dec)
     ctx.ob("R-TABLE", "lzw-constants", okl, "LZW: MSB-first, minimum code size 8 (9-bit codes), both EarlyChange variants", lz.where(),
            what="the LZW decoder is not configured MSB-first with 9-bit initial codes for both EarlyChange settings")
-    ek = set(lib._const_bytes_through(b2, a) for b2 in F.with_closures(lz) for c in b2.calls if c.local and c.name.endswith("Dictionary::get") for a in c.args[1:])
+    ek = set(lib._const_bytes_through(b2, a) for b2 in F.with_closures(lz) for c in b2.calls if c.local and c.cname.endswith("Dictionary::get") for a in c.args[1:])
     ctx.ob("R-TABLE", "lzw-earlychange", b"EarlyChange" in ek, "EarlyChange is read", lz.where(), what="EarlyChange is no longer read")
     a85 = F.fn("Stream::decode_ascii85")
     consts = set()
